@@ -36,15 +36,19 @@ CHECKS.update({
     "C03": ("proof",
             "Coq theorems: any two reduction trees with the same leaves give the same result (simple and grouped combine); the level-by-level "
             "tree builder covers blocks 0..n-1 in order for every split_every; any two valid schedules of a graph of pure tasks (any order, "
-            "re-execution allowed) agree on every key. Tie: K4 compares the tree actually evaluated by dask's and flox's _tree_reduce with the "
-            "Coq builder for every (n, split_every); K5 runs sync/threaded/random-order schedulers with re-execution.",
+            "re-execution allowed) agree on every key; flox's OWN tree (FloxTree: depth-1 partial levels, then a final level whose partitions overwrite one key) reduces "
+            "every block of a cohort once and in order whenever n <= k^depth, and loses whole partitions one level short (refuted example). Tie: K4 compares the tree "
+            "actually evaluated by dask's and flox's _tree_reduce (also with a leading kept axis) with the Coq builder for every (n, split_every); K2 calls flox's "
+            "_tree_reduce on fake layers (n up to 700 around powers of the fan-in) and checks wiring and n <= k^depth for the depth it really uses; K5 runs "
+            "sync/threaded/random-order schedulers with re-execution, incl. threaded runs with thousands of groups (GIL released).",
             NOTE_COMMON + "Real thread interleavings are outside Coq: the executor theorem assumes task atomicity and purity (C13).",
             "Coq proof (tree law, executor confluence) + graph-structure correspondence", "5 C03"),
     "C05": ("proof",
             "Coq theorems on the factorisation model and the pipeline: one slot per requested label, labels returned = request (sorted / as "
             "given), slot k holds exactly the elements labelled with the k-th label, missing/unrequested labels get code -1, min_count mask "
-            "applied on the exact valid count with the user's fill verbatim in every plan. Tie: K3 over expected superset/subset/disjoint x fills x "
-            "min_counts x engines x plans with the model factorising the raw labels itself.",
+            "applied on the exact valid count with the user's fill verbatim in every plan; the reindexing step (Reindex model) gives one slot per requested label in the "
+            "requested order, the met label's value or the fill, and is the identity on equal label lists. Tie: K3 over expected superset/subset/disjoint x fills x "
+            "min_counts x engines x plans x request containers x sort with the model factorising the raw labels itself; exhaustive K2 of reindex_ (every ordered from_ x to).",
             NOTE_COMMON + "Known finding KF01 (explicit min_count=0 with an absent label) is excluded by hypothesis and reported as KNOWN-FINDING.",
             "Coq proof (factorisation + mask lemmas) + differential correspondence", "5 C05"),
     "C09": ("proof",
